@@ -739,9 +739,16 @@ def run_impl(case, backend, do_stitch):
         with np.errstate(all='ignore'):
             kw, _ = shim(pyhf.infer.mle.twice_nll, list(case['data']), pdf, list(x), [tuple(b) for b in case['bounds']], fixed_vals, do_grad=True, do_stitch=do_stitch)
             pars = [x[i] for i in vidx] if do_stitch else list(x)
-            val, grad = kw['func'](tl.astensor(pars) if backend != 'jax' else pars)
+            point = tl.astensor(pars) if backend != 'jax' else pars
+            flt = lambda g: [float(v) for v in np.asarray(tl.tolist(g) if not isinstance(g, np.ndarray) else g).reshape(-1)]
+            val, grad = kw['func'](point)
             rec['value'] = float(np.asarray(val).reshape(-1)[0])
-            rec['grad'] = [float(v) for v in np.asarray(tl.tolist(grad) if not isinstance(grad, np.ndarray) else grad).reshape(-1)]
+            rec['grad'] = flt(grad)
+            # the SAME point object evaluated once more: the gradient is a function of the point, not of what was evaluated before,
+            # and the gradient handed out by the first call is still the gradient
+            val_b, grad_b = kw['func'](point)
+            rec['grad_repeat'] = flt(grad_b)
+            rec['grad_first_after_repeat'] = flt(grad)
             kw2, _ = shim(pyhf.infer.mle.twice_nll, list(case['data']), pdf, list(x), [tuple(b) for b in case['bounds']], fixed_vals, do_grad=False, do_stitch=do_stitch)
             v2 = kw2['func'](tl.astensor(pars) if backend != 'jax' else pars)
             rec['value_nograd'] = float(np.asarray(tl.tolist(v2)).reshape(-1)[0])
@@ -793,7 +800,7 @@ def fd_gradient(case, h=1e-4):
 
 def replay_body(case, rec, **kw):
     d = dict(kind='grad', case=pub(case), config=[rec['backend'], rec['do_stitch']],
-             impl={k: rec.get(k) for k in ('status', 'value', 'value_nograd', 'grad', 'index', 'msg')})
+             impl={k: rec.get(k) for k in ('status', 'value', 'value_nograd', 'grad', 'grad_repeat', 'grad_first_after_repeat', 'index', 'msg')})
     d.update(kw)
     return d
 
@@ -993,6 +1000,15 @@ def run(ctx):
                                       replay_body(c, rec, expected=[fd[j] for j in rec['index']], bad_components=off[:6], theorem='search: gradient path vs central differences'))
                         found = True
             continue
+        for which in ('grad_repeat', 'grad_first_after_repeat'):
+            g2 = rec.get(which)
+            if g2 is not None and (len(g2) != len(rec['grad']) or any(abs(a - b) > 1e-9 * max(1.0, abs(a)) for a, b in zip(rec['grad'], g2))):
+                ctx.violation('gradient-depends-on-call-history:%s' % rec['backend'],
+                              'evaluating the value-and-gradient function a second time on the same point object changes the gradient (%s): first %r, then %r'
+                              % ('second call' if which == 'grad_repeat' else 'the array returned by the first call', rec['grad'], g2),
+                              replay_body(c, rec, expected=rec['grad']))
+                found = True
+                break
         if len(rec['grad']) != len(rec['index']):
             ctx.violation('gradient-dimension:%s' % rec['backend'], 'gradient has %d components for %d parameters' % (len(rec['grad']), len(rec['index'])), replay_body(c, rec))
             found = True
